@@ -43,6 +43,7 @@ pub mod hpack {
     pub struct Dec {
         inner: Decoder,
         buf: BytesMut,
+        first: bool,
     }
 
     impl Dec {
@@ -50,6 +51,7 @@ pub mod hpack {
             Dec {
                 inner: Decoder::new(size),
                 buf: BytesMut::new(),
+                first: true,
             }
         }
 
@@ -61,6 +63,7 @@ pub mod hpack {
         /// as happens when a new HEADERS / PUSH_PROMISE payload is loaded.
         pub fn new_block(&mut self) {
             self.buf = BytesMut::new();
+            self.first = true;
         }
 
         /// Feeds one fragment the way `framed_read` does: the fragment is
@@ -69,6 +72,11 @@ pub mod hpack {
         /// and the length of the tail left for the next fragment.
         pub fn feed(&mut self, chunk: &[u8]) -> (Vec<(Vec<u8>, Vec<u8>)>, Result<(), String>, usize) {
             self.buf.extend_from_slice(chunk);
+            if !self.first {
+                // the CONTINUATION path of `framed_read::decode_frame`
+                self.inner.continue_block();
+            }
+            self.first = false;
             let mut out = Vec::new();
             let res = {
                 let mut cursor = Cursor::new(&mut self.buf);
